@@ -26,7 +26,6 @@ ALLOWED_AXIOMS = [
     "ClassicalDedekindReals.sig_not_dec",
     "FunctionalExtensionality.functional_extensionality_dep",
     "Classical_Prop.classic",
-    "Axioms",   # vlib.common's audit regex also matches the header line "Axioms:" printed by Print Assumptions; not an axiom
 ]
 META = {
     "level_text": "Machine-checked proofs (Coq, over the real numbers) about Gallina functions that are REGENERATED from platypus/problems.py by a fail-closed "
@@ -35,7 +34,8 @@ META = {
                   "on in-bounds input, and satisfies the published front bound (ZDT g >= 1 and f2 >= front(f1); DTLZ1 sum f = (1+g)/2 >= 1/2; DTLZ2-4 sum f^2 = (1+g)^2 >= 1, "
                   "by a telescoping-product induction valid for all M).  All 43 classes and the DTLZ/WFG samplers are covered on the real code by a differential oracle "
                   "against independent reference implementations (ZDT, DTLZ, UF1-10, UF13, CF1-10, WFG1-9; relative tolerance 1e-9), output count/finiteness checks at corners, "
-                  "boundary and random points, front inequalities, and sampler checks (in-bounds, front equation, mutual non-dominance with 1e-9 slack).",
+                  "boundary and random points, front inequalities, and sampler checks (in-bounds, front equation to 1e-9, mutual non-dominance: a batch fails when one sample is better than another "
+                  "by more than 1e-9 in EVERY objective).",
     "level_note": "Theorems are over Coq's classical real numbers: binary64 rounding and libm are NOT modelled (on the front a float result may undershoot by ulps; the oracle uses 1e-9 slack). "
                   "Axioms (Print Assumptions): ClassicalDedekindReals.sig_forall_dec, ClassicalDedekindReals.sig_not_dec, FunctionalExtensionality.functional_extensionality_dep "
                   "(the standard library's construction of R) and Classical_Prop.classic (standard-library facts about exp/ln/Rpower used for ZDT6's fourth root). "
@@ -43,7 +43,10 @@ META = {
                   "the reference formulas of coq/Model/ProblemsRef.v being the published ones. DTLZ4 is proved for alpha at its constructor default 100. "
                   "Theorems exist for ZDT1-4,6, DTLZ1-4,7 only; UF1-10 and the WFG shape functions are translated (definitions emitted, no theorem yet: "
                   "uf_front, wfg_lower_partial remain stated goals); WFG transformations, UF11-13, CF1-10, ZDT5 are covered by the differential oracle only. "
-                  "UF11/UF12 have no independent reference (count/finiteness only).",
+                  "UF11/UF12 have no independent reference (count/finiteness only). Sampler non-dominance: a pair is reported only when one sample is better by > 1e-9 in every objective; "
+                  "float-vector dominance with a tie within 1e-9 in some objective (DTLZ4.random: cos of an angle < 1.5e-8 rounds to exactly 1.0, giving pairs like (1.0, 1e-87, 1e-17) vs (1.0, 6e-13, 4.5e-9) "
+                  "that both lie on the unit sphere) is counted in the evidence, not reported. Recorded known findings: WFG1.random/UF13.random off-front (rounding of 0.35*2i/(2i) amplified by the 0.02 power), "
+                  "DTLZ7.random/WFG2.random batches not mutually non-dominated (disconnected fronts).",
     "technique": "Coq proof over Reals about a model regenerated from the Python source by a fail-closed AST translator + differential oracle against independent reference implementations",
 }
 
@@ -346,6 +349,11 @@ def check_zdt5(ctx, n):
 
 
 # ---------------------------------------------------------------------------------------------- run
+# corpus (runs first, independent of VERIF_SEED): sampler batches that exhibit the recorded KNOWN findings
+#   WFG1.random / UF13.random : off-front (one ulp of rounding in 0.35*2i/(2i) amplified by b_poly(., 0.02); every sample)
+#   DTLZ7.random / WFG2.random: disconnected front surface sampled uniformly -> dominated samples in a batch
+SAMPLER_CORPUS = [("WFG1", (2,), 360465237, 40), ("UF13", (), 1699183064, 40), ("DTLZ7", (2,), 17584423, 40), ("WFG2", (2,), 455146339, 40)]
+
 SAMPLER_CLASSES = ["DTLZ1", "DTLZ2", "DTLZ3", "DTLZ4", "DTLZ7"] + ["WFG%d" % i for i in range(1, 10)] + ["UF13"]
 
 
@@ -402,6 +410,19 @@ def run(ctx):
     # samplers
     batch = ctx.scale(40, 150)
     sampler_runs = 0
+    reported = set()
+
+    def report(fails, rp):
+        for k, w in fails:
+            if k not in reported:          # one violation per key
+                reported.add(k)
+                ctx.violation(k, w, rp)
+    for cls, args, seed, cb in SAMPLER_CORPUS:
+        fails, _objs = check_sampler(ctx, cls, args, seed, cb)
+        sampler_runs += 1
+        ctx.count(cb)
+        ctx.mark(("sampler", cls, args, seed))
+        report(fails, {"kind": "sampler", "cls": cls, "args": list(args), "seed": seed, "batch": cb})
     for cls in SAMPLER_CLASSES:
         for M in (ctx.scale((2, 3, 5), (2, 3, 4, 5, 8)) if cls != "UF13" else (5,)):
             args = () if cls == "UF13" else (M,)
@@ -411,8 +432,7 @@ def run(ctx):
                 sampler_runs += 1
                 ctx.count(batch)
                 ctx.mark(("sampler", cls, args, seed))
-                for k, w in fails:
-                    ctx.violation(k, w, {"kind": "sampler", "cls": cls, "args": list(args), "seed": seed, "batch": batch})
+                report(fails, {"kind": "sampler", "cls": cls, "args": list(args), "seed": seed, "batch": batch})
                 if cls == "DTLZ2" and M == 3 and _rep == 0 and objs:
                     ctx.sample({"sampler": "DTLZ2(3).random()", "seed": seed, "first_objectives": objs[0]})
     ctx.coverage["classes_exercised"] = len(seen_classes)
